@@ -239,16 +239,8 @@ def check(col: Collector, tier: str):
     col.add("C10.R6", "terminal.get_dereferenced_type", "depth-lowered-by-one-on-a-copy", "new_t._p_depth -= 1" in s and "copy.copy(self)" in s and "raise" in s, "", gd.loc)
 
     # ------------------------------------------------------------ R7 tree type (shared with C03)
-    from sa.props import c03
-    sub = Collector("C10")
-    try:
-        c03.check(sub, tier)
-    except AnalysisError:
-        raise
-    col.floor("C10.R7", 2)
-    for o in sub.obs:
-        if o.rule == "C03.R7":
-            col.add("C10.R7", o.construct, o.detail, o.ok, o.msg, o.loc)
+    from sa.props.c03 import check_tree_type
+    check_tree_type(col, "C10.R7", repo)
 
 
 def check_default_vector_type(col: Collector, rule: str, repo: Repo):
